@@ -321,4 +321,42 @@ theorem getTwo_encodeTwo (els : List (Nat × Bytes)) (hok : ∀ e ∈ els, Elem2
     simp only [encodeTwo, List.flatMap_cons, List.cons_append, List.append_assoc, lookup] at ih' ⊢
     rw [getTwo_elem w, ih']
 
+/-! ### interior padding and the stop marker -/
+
+theorem getOne_pad (id k : Nat) (t : Bytes) : getOne id (List.replicate k 0 ++ t) = getOne id t := by
+  induction k with
+  | zero => simp
+  | succ k ih => rw [List.replicate_succ, List.cons_append, getOne_cons_zero, ih]
+
+/-- one-byte-header form with `pad` zero octets in front of each element -/
+def encodeOnePadded (els : List (Nat × Nat × Bytes)) : Bytes :=
+  els.flatMap fun e => List.replicate e.1 0 ++ oneByteElem' e.2.1 e.2.2
+
+def lookupP (id : Nat) : List (Nat × Nat × Bytes) → Option Bytes
+  | [] => none
+  | (_, k, d) :: rest => if k = id then some d else lookupP id rest
+
+/-- padding between elements is skipped; after the RFC 8285 stop element (id 15) nothing is read, whatever
+octets follow -/
+theorem getOne_encodeOnePadded (els : List (Nat × Nat × Bytes)) (hok : ∀ e ∈ els, ElemOk e.2.1 e.2.2) (id : Nat)
+    (tail : Bytes) (htail : getOne id tail = none) :
+    getOne id (encodeOnePadded els ++ tail) = lookupP id els := by
+  induction els with
+  | nil => simpa [encodeOnePadded, lookupP] using htail
+  | cons e els ih =>
+    obtain ⟨pad, eid, d⟩ := e
+    have w : ElemOk eid d := hok (pad, eid, d) (List.mem_cons_self ..)
+    have ih' := ih (fun x hx => hok x (List.mem_cons_of_mem _ hx))
+    simp only [encodeOnePadded, List.flatMap_cons, List.append_assoc, lookupP] at ih' ⊢
+    rw [getOne_pad]
+    simp only [oneByteElem', List.cons_append, List.append_assoc]
+    by_cases h : eid = id
+    · subst h; rw [if_pos rfl, getOne_elem_self w]
+    · rw [if_neg h, getOne_elem_other w (Ne.symm h)]
+      exact ih'
+
+theorem getOne_stop (id : Nat) (b : UInt8) (hb : b.toNat / 16 = 15) (junk : Bytes) : getOne id (b :: junk) = none := by
+  have hne : b ≠ 0 := by intro h; rw [h] at hb; simp at hb
+  rw [getOne_cons hne, if_pos hb]
+
 end RtcModel.C15
